@@ -17,7 +17,8 @@ def _clean():
 
 def run(c):
     c.rule = ("step mode: random op sequences (8-28 ops: do ok/failing callback/failing SQL/failing append/context cancelled or deadline "
-              "expired from inside the callback after its SQL ran/read (parked reads remember the offset row they read), must-commit-now write, "
+              "expired from inside the callback after its SQL ran/read (parked reads remember the offset row they read); the first modifying "
+              "statement of every callback has one of five shapes: plain INSERT, CTE-prefixed WITH..INSERT, upsert, REPLACE, DDL via ExecUnsafe, must-commit-now write, "
               "binlog Commit at a random record boundary incl. stale ones, commit timer incl. a commit parked until the binlog catches up, "
               "real-time `tick` (two thirds of the NoWaitCommit-master cases run with CommitEvery=3ms: the engine's own timer may fire; there "
               "must be none in that mode), replica Apply/Skip/hold, explicit reader View, graceful close, crash image at a random durable boundary + replay with random "
@@ -90,6 +91,8 @@ META = {
              "released_only_when_covered (wait queue modelled explicitly: a write entry stands for its own end offset, a read entry for "
              "the offset row it has read; whatever the binlog announces next, every released entry is covered by it - invariant WQ, "
              "parked_calls_context; decide witness release_by_compaction_uncovers_a_read for seeded change C17-r5-1), "
+             "failed_callback_any_statement_shape (the savepoint is opened before the first modifying statement of any shape, the shape "
+             "is not in the model; decide witness savepoint_only_for_plain_writes_keeps_failed_write for seeded change C17-r6-1), "
              "offset_update_precedes_append (a write whose context dies before the engine's own offset UPDATE fails before anything "
              "reached the binlog; decide witness append_before_offset_update_leaves_record for the swapped order, C17-r5-2), "
              "readers_observe_announced_prefix (trace level: split any schedule at any View: the value the callback observes is the "
